@@ -184,7 +184,7 @@ func init() {
 		Level: "exploration",
 		Rule: "(1) random syntax-quote templates: nests (depth<=4) of lists, arrays and hash literals with ~x, ~(expr), (unquote x), ~@xs, ~@(expr) at every position (first, last, adjacent splices, empty and one-element splices, splices into arrays), bindings to scalars, strings, lists, nested lists and arrays; the value of ^template is compared structurally with an independent substitution function over the same AST. " +
 			"(2) macros: thirteen code templates (fixed and & rest parameters, splices in call, begin, let, cond, array, list, for, and forms, and expansions that break / continue out of the caller's loop) called with effectful arguments at top level, inside functions, loops, lets, below let+newScope inside a loop (with the names read again afterwards) and inside another macro's template; value and effect trace must equal those of the hand-written expansion evaluated in a twin interpreter in the same scope (non-hygienic by design), and (macexpand …) must print the model's expansion. " +
-			"(4) ten templates / macros with fixed expectations (recursive functions returning templates whose unquote or splice holds the self call, argument effects duplicated and reordered as the expansion says, nested macros compiled once and called twice, adjacent and empty splices, a defining macro); macros written in Go (AddMacro) that evaluate at expansion time, look names up and reorder arguments, used at top level, in let initializers, operands, function bodies and loops; 1500 failing expansions followed by ordinary macro use in the same and in a fresh interpreter. (3) expanding (macexpand and compile-time expansion) must leave the caller's stack depths, its set of global names and the printed values of all its globals unchanged. non-trivial = distinct template with >=1 splice and >=1 nested container, or a macro call site below a function/loop/let",
+			"(4) fourteen templates / macros with fixed expectations (among them dot paths as macro arguments) (recursive functions returning templates whose unquote or splice holds the self call, argument effects duplicated and reordered as the expansion says, nested macros compiled once and called twice, adjacent and empty splices, a defining macro); macros written in Go (AddMacro) that evaluate at expansion time, look names up and reorder arguments, used at top level, in let initializers, operands, function bodies and loops; 1500 failing expansions followed by ordinary macro use in the same and in a fresh interpreter. (3) expanding (macexpand and compile-time expansion) must leave the caller's stack depths, its set of global names and the printed values of all its globals unchanged. non-trivial = distinct template with >=1 splice and >=1 nested container, or a macro call site below a function/loop/let",
 		Assumptions: []string{
 			"a hash literal inside a template denotes the list (hash k v …) as on the unchanged tree; the long spelling (unquote-splicing …) is not generated (it is lexed as three symbols)",
 		},
